@@ -49,6 +49,7 @@ func init() {
 			"(C08-root) no value whose element order or text depends on Go map iteration order reaches an output root (result of ConnectionsListToString / ConnectivityDiffToString, arguments of the CLI print calls) un-sorted; " +
 			"(C08-choice) every statement whose effect depends on which element of an unordered sequence comes first or last (first-match break/return, last-wins store, constant index into an unordered slice) is either key-determined or listed in the justification table with its invariant. " +
 			"(C08-labels) the choice of the pod that represents a workload is justified by `pods of one owner have equal Labels`; so selectors are matched against the Labels field of a pod or namespace only, never against a set computed from other per-pod state. " +
+			"(C08-pairs) the pair filter excludes pairs for reviewed reasons only (the rule of C06-pairs): with other exclusions, which pair is the first one of a workload - and with it the exposure data that are read there - depends on map order. " +
 			"(C08-acc) the set operations folded in unordered loops (Union, AddConnection, ...) write their receiver only and store no pointer of an operand, which is what makes folding them order-independent; (C08-union-total) a mutating binary operation of PortSet has no exit that skips a component of its operand, so union stays commutative. Document order is covered too: every parameter of type []parser.K8sObject / []*resource.Info is an unordered source, functions called once per document are analysed as an unordered context, and a store into longer-lived state whose value is not determined by its key (a lossy key such as a hash counts as not determining) is a choice site. NOT decided: totality of hand-written comparators on ties; nondeterminism inside third-party code; order of warnings / choice of error text; permutations of rule lists inside one policy (they are folded by commutative unions and first-match quantifier loops, which the interpreter classifies, but are not declared as sources)."
 		// (C08-acc) the interpreter treats the set operations as commutative accumulators when they are folded in an
 		// unordered loop; that argument needs them to leave their operands alone and to keep no pointer into them
@@ -59,6 +60,7 @@ func init() {
 		rules.LoopCarriedDefaults(p, r, "C08-loop")
 		rules.PortSetMutatorsTotal(p, r, "C08-union-total")
 		rules.SelectorsMatchObjectLabels(p, r, "C08-labels")
+		rules.PairFilterExclusions(p, r, "C08-pairs")
 		var sources []ordertaint.Source
 		if fd := p.Func(core.PkgConnlist, "ConnlistAnalyzer", "ConnectionsListToString"); fd != nil {
 			sources = append(sources, ordertaint.Source{Param: fd.Obj.Type().(*types.Signature).Params().At(0), Ord: ordertaint.Unord})
